@@ -175,6 +175,14 @@ func (g *Gen) stmt(depth int) []*Node {
 		16, // 21 use a known function / class / object
 		6,  // 22 function name observation (NamedEvaluation / SetFunctionName)
 		5,  // 23 closures over per-iteration loop bindings, created statically or by direct eval, called after the loop
+		4,  // 24 tagged template sites evaluated more than once (template object identity)
+		4,  // 25 completion value with unreachable statements after a direct break / continue
+	}
+	if g.off(NoTemplates) {
+		w[24] = 0
+	}
+	if deep || g.off(NoLabels) {
+		w[25] = 0
 	}
 	if deep || g.budget <= 0 {
 		w[23] = 0
@@ -245,7 +253,7 @@ func (g *Gen) stmt(depth int) []*Node {
 	if g.fn == nil && g.inTry == 0 {
 		wrapPct = 70
 	}
-	if k != 1 && k != 13 && k != 7 && k != 16 && k != 17 && k != 8 && k != 22 && k != 23 && g.chance(wrapPct) {
+	if k != 1 && k != 13 && k != 7 && k != 16 && k != 17 && k != 8 && k != 22 && k != 23 && k != 24 && k != 25 && g.chance(wrapPct) {
 		g.tryDepth++
 		defer func() { g.tryDepth-- }()
 		g.inTry++
@@ -321,7 +329,12 @@ func (g *Gen) stmt1(k, depth int) []*Node {
 	case 15:
 		return []*Node{g.withStmt(depth)}
 	case 16:
-		return []*Node{g.jump()}
+		j := g.jump()
+		if (j.K == KBreak || j.K == KCont) && g.chance(50) {
+			// unreachable statements after a direct jump: they must not influence the completion value
+			return []*Node{j, ExprStmt(g.numLit())}
+		}
+		return []*Node{j}
 	case 17:
 		if g.chance(25) {
 			return []*Node{Ret(nil)}
@@ -343,6 +356,10 @@ func (g *Gen) stmt1(k, depth int) []*Node {
 		return g.nameProbe()
 	case 23:
 		return g.loopClosures(depth)
+	case 24:
+		return g.tagProbe()
+	case 25:
+		return g.completionProbe()
 	}
 	return []*Node{g.logStmt()}
 }
@@ -1323,5 +1340,121 @@ func (g *Gen) loopClosures(depth int) []*Node {
 		}
 	}
 	out = append(out, Log(calls...))
+	return out
+}
+
+// tagProbe: one tagged template site evaluated more than once (second call, loop iteration) and distinct sites; the tag
+// function logs and returns the template object, whose identity the log rendering shows (o#k) and === compares.
+func (g *Gen) tagProbe() []*Node {
+	tag := g.fresh("t")
+	g.declVar(tag, hFunc)
+	s, v := "s", "v"
+	tagFn := Func("", []*Node{Id(s), {K: KRest, A: Id(v)}},
+		Log(Id(s), Dot(Id(s), "length"), Index(Id(s), Num(0)), Index(Dot(Id(s), "raw"), Num(0)), Index(Id(v), Num(0))),
+		Ret(Id(s)))
+	out := []*Node{Var("var", Id(tag), tagFn)}
+	tmpl := func() *Node {
+		n := g.r.Intn(3)
+		t := &Node{K: KTagged, A: Id(tag)}
+		plain := []string{"a", "b", "x", "ab", ""}
+		for i := 0; i < n; i++ {
+			t.Q = append(t.Q, g.pick(plain))
+			t.L = append(t.L, g.small(1))
+		}
+		t.Q = append(t.Q, g.pick(plain))
+		return t
+	}
+	switch g.pickW(35, 30, 20, 15) {
+	case 0:
+		// the same site through two calls of one function
+		k := g.fresh("k")
+		g.declVar(k, hFunc)
+		var f *Node
+		if g.chance(50) {
+			f = Func("", nil, Ret(tmpl()))
+		} else {
+			f = ArrowExpr(nil, tmpl())
+		}
+		out = append(out, Var("var", Id(k), f), Log(Bin("===", Call(Id(k)), Call(Id(k)))))
+	case 1:
+		// the same site in the iterations of a loop
+		q := g.fresh("q")
+		g.declVar(q, hArr)
+		i := g.fresh("i")
+		loop := &Node{K: KFor, A: Var("let", Id(i), Num(0)), B: Bin("<", Id(i), Num(2)), C: &Node{K: KUpdate, S: "++", A: Id(i)},
+			D: Block(ExprStmt(Assign("=", Index(Id(q), Id(i)), tmpl())))}
+		out = append(out, Var("var", Id(q), Arr()), loop, Log(Bin("===", Index(Id(q), Num(0)), Index(Id(q), Num(1))), Index(Id(q), Num(1))))
+	case 2:
+		// two sites with the same text are different objects
+		a, b := tmpl(), tmpl()
+		b.Q, b.L = append([]string(nil), a.Q...), nil
+		for _, e := range a.L {
+			b.L = append(b.L, e.Clone())
+		}
+		out = append(out, Log(Bin("===", a, b)))
+	default:
+		// a site inside eval code: every eval call parses the text anew
+		if g.off(NoEval) {
+			out = append(out, Log(tmpl()))
+			break
+		}
+		k := g.fresh("k")
+		g.declVar(k, hFunc)
+		f := Func("", nil, Ret(&Node{K: KEval, L: []*Node{ExprStmt(tmpl())}}))
+		out = append(out, Var("var", Id(k), f), Log(Bin("===", Call(Id(k)), Call(Id(k)))))
+	}
+	return out
+}
+
+// completionProbe: a value, then a compound statement left by a direct break / continue with unreachable statements
+// behind the jump. The unreachable statements must not contribute to (or reset) the completion value.
+func (g *Gen) completionProbe() []*Node {
+	val := func() *Node { return ExprStmt(g.numLit()) }
+	dead := func() []*Node {
+		if g.chance(50) {
+			return []*Node{val()}
+		}
+		return []*Node{val(), Log(Str("dead"))}
+	}
+	lbl := g.fresh("M")
+	var st *Node
+	switch g.pickW(35, 20, 20, 25) {
+	case 0:
+		body := []*Node{}
+		if g.chance(50) {
+			body = append(body, val())
+		}
+		body = append(body, &Node{K: KBreak, S: lbl})
+		st = Label(lbl, Block(append(body, dead()...)...))
+	case 1:
+		body := []*Node{}
+		if g.chance(50) {
+			body = append(body, val())
+		}
+		body = append(body, &Node{K: KBreak})
+		st = &Node{K: KDo, D: Block(append(body, dead()...)...), A: Bool(false)}
+	case 2:
+		c := &Node{K: KCase, A: Num(1)}
+		if g.chance(50) {
+			c.L = append(c.L, val())
+		}
+		c.L = append(c.L, &Node{K: KBreak})
+		c.L = append(c.L, dead()...)
+		st = &Node{K: KSwitch, A: Num(1), L: []*Node{c}}
+	default:
+		i := g.fresh("i")
+		body := []*Node{}
+		if g.chance(50) {
+			body = append(body, val())
+		}
+		body = append(body, &Node{K: KCont})
+		st = &Node{K: KFor, A: Var("var", Id(i), Num(0)), B: Bin("<", Id(i), Num(2)), C: &Node{K: KUpdate, S: "++", A: Id(i)}, D: Block(append(body, dead()...)...)}
+		g.declVar(i, hNum)
+	}
+	out := []*Node{val(), st}
+	if g.chance(30) {
+		// the same inside eval code, whose completion value is the value of the call
+		return []*Node{Log(&Node{K: KEval, L: out})}
+	}
 	return out
 }
